@@ -10,6 +10,7 @@ from ..common import Report
 
 PROPERTY = "C14"
 ENGINE = "E2"
+TECHNIQUE = "bounded-exhaustive enumeration of convex/rounded polygons, ellipses x in-plane placements x angle alphabet vs exact ray-boundary distance"
 RULE = (
     "cases = shape in the xy-plane (ConvexPolygon over convex lattice polygons CP2, axis-aligned rectangles and regular n-gons 3..30 - "
     "each in both vertex orders, i.e. both normals -, ConvexSpheropolygon over the same cores x rounding radii {0, 0.1, 1, 10} L, "
